@@ -41,6 +41,11 @@ CHECKS = {
             "For every catalogued stochastic transform (found by walking the transform packages; uncovered classes are listed in the evidence) and compositions (compose, random-apply, patchwise, scheduled; nested to depth 2 quick / 3 thorough), all histories construct(g).call^{0..2}.[perturb].set_rng(s).call^3.set_rng(s).call^3 over two global RNG states and three seeds are executed on the real objects; the observation (outputs + context) for a state (spec, seed, inputs since injection) must be identical along every history, re-injection must replay, and the global NumPy/Torch/Python RNG states must be bit-identical across every post-injection call.",
             "Trusted: the catalogue's constructor arguments/inputs; image content and sizes beyond the catalogue are not covered; calls that raise consistently are counted, not judged here.",
             "DESIGN.md section 5 C07"),
+    "C08": ("E2-bfs", "model_checking",
+            "explicit enumeration of access histories and simulated workers per seeded stack with a path-independence oracle (state = (stack, sample index))",
+            "Seeded transform / multi-view / mix / segmentation / ready-made wrappers over catalogue transforms and probe transforms (raw draws as output), placed bare, below a subset, below a repeat wrapper, above an identity wrapper and below a deterministic transform wrapper, over samples with identical data: every access sequence of length <=3 (<=2 for non-probe specs) with and without global-RNG perturbation on one real object, plus 1..3 simulated workers (fresh copy, own global seed, worker_init_fn) accessing every position twice; the observation (value + ctx) of sample i must be unique over all of them, and probe stacks must give different observations for different indices.",
+            "Trusted: harness datasets and the digest of outputs; real DataLoader worker processes are not part of the deciding step; scheduled transforms are excluded from the worker phase (strength depends on progress by design); quick tier rotates catalogue specs over wrappers/placements (VERIF_SEED).",
+            "DESIGN.md section 5 C08"),
     "C09": ("E1-choice", "exploration",
             "exhaustive product of stacks x transform specs x collators x worker sets; generator graph walk + stream-window comparison on the real objects",
             "For every catalogued transform and composition placed in seven stack shapes (transform / multi-view / subset / concat / nested / interleaved-concat / other-item wrappers), the segmentation and ready-made multi-view wrappers, five collator registrations, worker counts 2-3 and two base seeds: simulated workers (identical copies as after fork, np.random.seed(worker seed), worker_init_fn(rank)) are built from the real classes; every numpy Generator reachable from the stack is found by a graph walk; the next 16 draws of each must share no length-3 window between differently seeded workers (this also catches a generator copied at fork) and be bit-identical for equal seeds.",
